@@ -275,7 +275,7 @@ Qed.
    neighbours, every dynamic neighbour in the table has a live connection *)
 Lemma step_keys g o : keys_ok g -> keys_ok (fst (step_op g o)).
 Proof.
-  unfold keys_ok. intro Hk. destruct o as [a r|a r|a b]; cbn [step_op].
+  unfold keys_ok. intro Hk. destruct o as [a r|a r|a b|a|a|a]; cbn [step_op].
   - unfold accept_connection. destruct (lookup a (gl_peers g)) as [p|].
     + destruct (pe_admin_down p); [exact Hk|]. destruct (conn_of p r); [exact Hk|].
       cbn [fst set_peers gl_peers]. apply nodup_update. exact Hk.
@@ -285,12 +285,18 @@ Proof.
     cbn [fst]. unfold disconnect. rewrite Hl.
     destruct (negb _ && negb _ && _); cbn [set_peers gl_peers]; [apply nodup_remove|apply nodup_update]; exact Hk.
   - destruct (lookup a (gl_peers g)) as [p|]; [|exact Hk]. cbn [fst set_peers gl_peers]. apply nodup_update. exact Hk.
+  - cbn [fst]. unfold disable. destruct (lookup a (gl_peers g)) as [p|]; [|exact Hk].
+    destruct (pe_admin_down p); [exact Hk|].
+    destruct ((pe_conn_active p || pe_conn_passive p) && pe_delete p); cbn [set_peers gl_peers];
+      [apply nodup_remove|apply nodup_update]; exact Hk.
+  - destruct (lookup a (gl_peers g)) as [p|]; [|exact Hk]. cbn [fst set_peers gl_peers]. apply nodup_update. exact Hk.
+  - cbn [fst set_peers gl_peers]. apply nodup_remove. exact Hk.
 Qed.
 
 Lemma step_dynamic g o :
   keys_ok g -> dynamic_have_connection g -> dynamic_have_connection (fst (step_op g o)).
 Proof.
-  unfold dynamic_have_connection. intros Hk Hinv. destruct o as [a r|a r|a b]; cbn [step_op].
+  unfold dynamic_have_connection. intros Hk Hinv. destruct o as [a r|a r|a b|a|a|a]; cbn [step_op].
   - destruct (accept_connection g a r) as [|g' s] eqn:Ha; [exact Hinv|]. cbn [fst].
     destruct (C16_session_fields_from_config g g' a r s Ha) as (p & Hl & _ & Hc & Hoth & _).
     intros b q Hq Hd. destruct (addr_dec b a) as [->|Hne].
@@ -311,6 +317,27 @@ Proof.
     intros c q Hq Hd. destruct (addr_dec c a) as [->|Hne].
     + rewrite lookup_update_same in Hq. injection Hq as <-. cbn in Hd |- *. exact (Hinv a p Hl Hd).
     + rewrite lookup_update_other in Hq by exact Hne. exact (Hinv c q Hq Hd).
+  - (* disable_peer *)
+    cbn [fst]. unfold disable. destruct (lookup a (gl_peers g)) as [p|] eqn:Hl; [|exact Hinv].
+    destruct (pe_admin_down p); [exact Hinv|].
+    intros c q Hq Hd. destruct (addr_dec c a) as [->|Hne].
+    + destruct ((pe_conn_active p || pe_conn_passive p) && pe_delete p) eqn:E; cbn [set_peers gl_peers] in Hq.
+      * rewrite lookup_remove_same in Hq by exact Hk. discriminate Hq.
+      * rewrite lookup_update_same in Hq. injection Hq as <-. cbn in Hd.
+        destruct (Hinv a p Hl Hd) as [Hc|Hc]; rewrite Hc, Hd in E; cbn in E;
+          rewrite ?orb_true_r in E; discriminate E.
+    + destruct ((pe_conn_active p || pe_conn_passive p) && pe_delete p); cbn [set_peers gl_peers] in Hq;
+        [rewrite lookup_remove_other in Hq by exact Hne|rewrite lookup_update_other in Hq by exact Hne];
+        exact (Hinv c q Hq Hd).
+  - (* enable_peer *)
+    destruct (lookup a (gl_peers g)) as [p|] eqn:Hl; [|exact Hinv]. cbn [fst set_peers gl_peers].
+    intros c q Hq Hd. destruct (addr_dec c a) as [->|Hne].
+    + rewrite lookup_update_same in Hq. injection Hq as <-. cbn in Hd |- *. exact (Hinv a p Hl Hd).
+    + rewrite lookup_update_other in Hq by exact Hne. exact (Hinv c q Hq Hd).
+  - (* delete_peer *)
+    cbn [fst set_peers gl_peers]. intros c q Hq Hd. destruct (addr_dec c a) as [->|Hne].
+    + rewrite lookup_remove_same in Hq by exact Hk. discriminate Hq.
+    + rewrite lookup_remove_other in Hq by exact Hne. exact (Hinv c q Hq Hd).
 Qed.
 
 Lemma C16_dynamic_peers_have_connections :
@@ -439,4 +466,43 @@ Proof.
       * subst llp. destruct llgr as [l|]; [|destruct H]. destruct H as [H|[]]. injection H as <-. eauto.
       * destruct H as [H|[H|[]]]; discriminate H.
     + intros (l & -> & ->). right. right. left. left. reflexivity.
+Qed.
+
+(* (18) Global.peer_group is a hash map: whether a connection is admitted does
+   not depend on its iteration order ... *)
+Definition with_groups (g : global) (l : list group) : global :=
+  {| gl_asn := gl_asn g; gl_router_id := gl_router_id g; gl_confed := gl_confed g;
+     gl_restarting := gl_restarting g; gl_peers := gl_peers g; gl_groups := l |}.
+
+Lemma C16_admission_independent_of_group_order :
+  forall (g : global) (l : list group) (a : ipaddr) (r : role),
+    wf_global g -> addr_ok a -> (forall gr, In gr l <-> In gr (gl_groups g)) ->
+    (accept_connection (with_groups g l) a r <> Reject <-> accept_connection g a r <> Reject).
+Proof.
+  intros g l a r Hwf Ha Hperm.
+  assert (Hwf' : wf_global (with_groups g l)).
+  { intros gr n Hin Hn. apply (Hwf gr n); [apply Hperm; exact Hin|exact Hn]. }
+  rewrite (C16_accept_iff_permitted _ a r Hwf' Ha), (C16_accept_iff_permitted g a r Hwf Ha).
+  unfold permitted, configured, in_dynamic_prefix. cbn [with_groups gl_peers gl_groups].
+  split; (intros [H|[H1 (gr & n & H2 & H3)]]; [left; exact H|right; split; [exact H1|]; exists gr, n;
+          split; [apply Hperm; exact H2|exact H3]]).
+Qed.
+
+(* ... but when prefixes of two groups overlap, which group's settings a
+   dynamic neighbour inherits does (observation: the text does not say which
+   group is "its" group; the code takes the first in hash order) *)
+Definition ex_group2 : group :=
+  {| g_as := 65001; g_prefixes := [Net4 [127; 0; 0; 0] 8]; g_rs_client := false; g_hold := Some 90;
+     g_local_asn := 0; g_passive := true; g_rr := ex_rr; g_multihop := None; g_ttlsec := None;
+     g_families := []; g_send_max := []; g_gr := None; g_llgr := None |}.
+
+Lemma C16_overlapping_groups_order_dependent :
+  exists (g : global) (a : ipaddr) (p1 p2 : peer) (g1 g2 : global) (s1 s2 : session),
+    accept_connection g a RPassive = Accept g1 s1
+    /\ accept_connection (with_groups g (rev (gl_groups g))) a RPassive = Accept g2 s2
+    /\ lookup a (gl_peers g1) = Some p1 /\ lookup a (gl_peers g2) = Some p2
+    /\ pe_hold p1 = 30 /\ pe_hold p2 = 90.
+Proof.
+  exists (with_groups ex_global [ex_group; ex_group2]), ex_addr.
+  vm_compute. do 6 eexists. repeat split.
 Qed.
